@@ -9,6 +9,10 @@ def classify(case):
     import base64
     i = case.get("input") or {}
     o = case.get("observed") or {}
+    if isinstance(o, dict) and o.get("kept_beneath_across_overname") and not o.get("kept_beneath_same_class") and not o.get("missing"):
+        # changes driver: an entry is kept although an entry above it is unmounted, and every such pair straddles the
+        # overname boundary (pairs within one class and everything else are still checked through MountNS.relaxed_fail)
+        return "keep-beneath-unmounted-overname"
     if isinstance(o, dict) and o.get("missing") and set(o["missing"]) <= set(o.get("shadowed") or []):
         # changes driver: the only desired entries absent afterwards are ones whose (dir, type) is occupied by a different,
         # reused helper entry of the current profile (any other failure of the step is reported through MountNS.relaxed_fail)
